@@ -13,6 +13,7 @@
 #include <fcntl.h>
 #include <map>
 #include <poll.h>
+#include <dirent.h>
 #include <sched.h>
 #include <set>
 #include <sstream>
@@ -137,7 +138,7 @@ static uint64_t log_hash(const vs_slot &s) {
 // ---------------------------------------------------------------- one execution (worker side)
 static void run_execution(WorkerShm &w, const VProgram &p, const Prefix &pre) {
     vs_options opt{};
-    opt.unlock_points = p.unlock_points;
+    opt.unlock_points = p.unlock_points; opt.spurious = p.spurious;
     opt.horizon = p.horizon;
     opt.prefix = pre.choice.data(); opt.prefix_len = (int)pre.choice.size();
     opt.exp_nalt = pre.nalt.empty() ? nullptr : pre.nalt.data();
@@ -239,7 +240,28 @@ static void worker_main(int k, int cmdfd, int donefd) {
 // ---------------------------------------------------------------- coordinator
 struct Task { int prog, bound, mode, floor; Prefix pre; };
 
-struct Worker { pid_t pid = -1; int cmdfd = -1, donefd = -1; bool busy = false; Task task; uint64_t last_hb = 0; double last_hb_t = 0; Counters seen{}; };
+struct Worker { pid_t pid = -1; int cmdfd = -1, donefd = -1; bool busy = false; Task task; uint64_t last_hb = 0; double last_hb_t = 0, stall_t0 = 0, stall_sample_t = 0; long stall_cpu0 = -1; int stall_runnable = 0; Counters seen{}; };
+
+// What a worker without a heartbeat is doing, read from /proc: CPU ticks used by the process and whether any of its threads is runnable.  A worker that is blocked in something
+// the scheduler does not model sleeps in all its threads and uses no CPU; a worker that is merely starved by other load on the machine has a runnable thread (and is never called a hang).
+static bool proc_sample(pid_t pid, long &cpu_ticks, bool &any_runnable) {
+    cpu_ticks = 0; any_runnable = false;
+    char path[64]; snprintf(path, sizeof path, "/proc/%d/task", (int)pid);
+    DIR *d = opendir(path); if (!d) return false;
+    bool ok = false;
+    while (dirent *e = readdir(d)) {
+        if (e->d_name[0] == '.') continue;
+        char sp[320]; snprintf(sp, sizeof sp, "/proc/%d/task/%s/stat", (int)pid, e->d_name);
+        FILE *f = fopen(sp, "r"); if (!f) continue;
+        char buf[1024]; size_t n = fread(buf, 1, sizeof buf - 1, f); fclose(f); buf[n] = 0;
+        char *rp = strrchr(buf, ')'); if (!rp) continue;
+        char state = 0; long ut = 0, st = 0;
+        // after ") ": state ppid pgrp session tty tpgid flags minflt cminflt majflt cmajflt utime stime
+        if (sscanf(rp + 2, "%c %*d %*d %*d %*d %*d %*u %*u %*u %*u %*u %ld %ld", &state, &ut, &st) == 3) { ok = true; cpu_ticks += ut + st; if (state == 'R' || state == 'D') any_runnable = true; }
+    }
+    closedir(d);
+    return ok;
+}
 
 struct Violation {
     std::string program; int prog; int bound; int outcome; std::string msg; std::vector<int> schedule;
@@ -313,7 +335,7 @@ static void send_task(int k, const Task &t) {
     memcpy(s.exp_nalt, t.pre.nalt.data(), s.exp_len);
     memcpy(s.exp_sig, t.pre.sig.data(), s.exp_len * sizeof(uint32_t));
     g_w[k].cancel = 0; g_w[k].split_request = 0; g_w[k].cur_floor = t.floor;
-    w.task = t; w.busy = true; w.last_hb = g_w[k].slot.heartbeat; w.last_hb_t = now_s();
+    w.task = t; w.busy = true; w.last_hb = g_w[k].slot.heartbeat; w.last_hb_t = now_s(); w.stall_cpu0 = -1;
     char c = 'g';
     if (write(w.cmdfd, &c, 1) != 1) { perror("write cmd"); }
 }
@@ -568,8 +590,21 @@ static bool explore(RunState &rs, int prog, int bound, int max_violations) {
             }
             if (w.busy) {
                 uint64_t hb = g_w[k].slot.heartbeat; double t = now_s();
-                if (hb != w.last_hb) { w.last_hb = hb; w.last_hb_t = t; }
-                else if (t - w.last_hb_t > g_hang_limit) {
+                if (hb != w.last_hb) { w.last_hb = hb; w.last_hb_t = t; w.stall_cpu0 = -1; }
+                else if (t - w.last_hb_t > 2 && t - w.stall_sample_t > 0.5) {
+                    // no scheduling step for a while: watch what the process is doing (sampled twice a second)
+                    long cpu; bool runnable;
+                    w.stall_sample_t = t;
+                    if (proc_sample(w.pid, cpu, runnable)) {
+                        if (w.stall_cpu0 < 0) { w.stall_cpu0 = cpu; w.stall_t0 = t; w.stall_runnable = 0; }
+                        if (runnable) w.stall_runnable++;
+                        if (cpu != w.stall_cpu0 || runnable) {
+                            // it computes or waits for a CPU: not blocked.  Start the quiet period again, but give up after 20 x the limit without a step (a loop without scheduling points).
+                            if (t - w.last_hb_t < 20 * g_hang_limit) { w.stall_cpu0 = cpu; w.stall_t0 = t; }
+                        }
+                    }
+                }
+                if (hb == w.last_hb && w.stall_cpu0 >= 0 && t - w.stall_t0 > g_hang_limit) {      // asleep in all threads, no CPU used, for the whole limit
                     const vs_record &rr = g_w[k].slot.rec;
                     char b[256]; snprintf(b, sizeof b, "%s bound=%d schedule=%s: no scheduling step for %.0f s (blocking that the scheduler does not model)", p.name.c_str(), bound,
                                           sched_str(rr.choice, rr.n).c_str(), g_hang_limit);
